@@ -3,7 +3,8 @@
 declare -A PR=( [C01]="C01" [C02]="C02" [C03]="C03" [C04]="C04" [C05]="C05" [C06]="C06" [C07]="C07" [C08]="C08" [C09]="C09" [C10]="C10" [C11]="C11" [C13]="C13" [C14]="C14" [C15]="C15" [C16]="C16" [C17]="C17" [C18]="C18" [C19]="C19" )
 for d in /verif/seeded/S_*; do
   s=$(basename $d); p=${s#S_}; p=${p%%_*}
-  out=$(bash /verif/eav/seedcheck.sh $d/patch.diff ${PR[$p]} 2>&1 | grep -E "^VIOLATION|^UNDECIDED|^OK|failed obl" | cut -c1-220 | head -3 | tr '\n' ' ')
+  pf=$d/patch.diff; [ -f $d/patch_rebased.diff ] && pf=$d/patch_rebased.diff
+  out=$(bash /verif/eav/seedcheck.sh $pf ${PR[$p]} 2>&1 | grep -E "^VIOLATION|^UNDECIDED|^OK|failed obl" | cut -c1-220 | head -3 | tr '\n' ' ')
   echo "$s: $out"
 done
 git -C /repo status --short
